@@ -19,6 +19,7 @@ import (
 	"github.com/brutella/hc"
 	"github.com/brutella/hc/accessory"
 	hccrypto "github.com/brutella/hc/crypto"
+	"github.com/brutella/hc/db"
 	"github.com/brutella/hc/hap"
 
 	"github.com/brutella/hc/verifshim/vyield"
@@ -64,6 +65,55 @@ func (c *hconn) SetDeadline(time.Time) error      { return nil }
 func (c *hconn) SetReadDeadline(time.Time) error  { return nil }
 func (c *hconn) SetWriteDeadline(time.Time) error { return nil }
 
+var (
+	hidL = refctl.NewIdentity("1111AAAA-2222-3333-4444-5555bbbb6666", "legit-L")
+	hidX = refctl.NewIdentity("EEEEEEEE-0000-0000-0000-EEEEEEEEEEEE", "adversary-X")
+)
+
+// accept registers a new, unverified connection and returns its index.
+func (w *hworld) accept(remote string) int {
+	// (the index is fixed before any instrumented code runs: the other thread may accept a connection meanwhile)
+	c := &hconn{remote: remote}
+	idx := len(w.conns)
+	w.conns = append(w.conns, c)
+	w.hc = append(w.hc, nil)
+	w.hc[idx] = hap.NewConnection(c, w.ctx)
+	return idx
+}
+
+func (w *hworld) post(conn int, path string, body []byte) (int, []byte) {
+	req := httptest.NewRequest("POST", path, bytes.NewReader(body))
+	req.RemoteAddr = w.conns[conn].remote
+	rec := httptest.NewRecorder()
+	w.mux.ServeHTTP(rec, req)
+	return rec.Code, rec.Body.Bytes()
+}
+
+func (w *hworld) switched(conn int) bool {
+	s := w.ctx.GetSessionForConnection(w.conns[conn])
+	return s != nil && s.Decrypter() != nil
+}
+
+// verify runs a complete pair-verify on a new connection; the finish names `name` and is signed with priv.
+func (w *hworld) verify(remote, seed, name string, id refctl.Identity) string {
+	c := w.accept(remote)
+	v := refctl.NewVerify(refctl.Seed32(seed))
+	st, b := w.post(c, "/pair-verify", refctl.VerifyM1(v.EphPub))
+	if st != 200 || v.ParseM2(b, nil) != nil {
+		return fmt.Sprintf("start rejected (%d)", st)
+	}
+	st, b = w.post(c, "/pair-verify", refctl.VerifyM3Sealed(v.EncKey, v.M3Sub(name, id.Priv)))
+	ec, err := refctl.ParseVerifyM4(b)
+	res := fmt.Sprintf("finish: status %d error %d %v, session switched: %v", st, ec, err != nil, w.switched(c))
+	if w.switched(c) {
+		// what a verified connection may do
+		res += " | " + w.do(c, "GET", "/characteristics?id="+w.id("on"), "")
+	} else {
+		res += " | " + w.do(c, "GET", "/characteristics?id="+w.id("on"), "")
+	}
+	return res
+}
+
 type hworld struct {
 	dir    string
 	mux    *http.ServeMux
@@ -84,6 +134,9 @@ func newHWorld(scratch string) (*hworld, error) {
 	w := &hworld{dir: dir, remote: map[string]int{}}
 	w.sw = accessory.NewSwitch(accessory.Info{Name: "HSwitch", SerialNumber: "S-1"})
 	w.bulb = accessory.NewColoredLightbulb(accessory.Info{Name: "HBulb", SerialNumber: "S-2"})
+	if database, err := db.NewDatabase(filepath.Join(dir, "db")); err == nil {
+		database.SaveEntity(db.NewEntity(hidL.ID, hidL.Pub, nil)) // a paired controller
+	}
 	t, err := hc.NewIPTransport(hc.Config{StoragePath: filepath.Join(dir, "db"), Pin: "00102003"}, w.sw.Accessory, w.bulb.Accessory)
 	if err != nil {
 		return nil, err
@@ -228,14 +281,24 @@ func hpairs() []hpair {
 			func(w *hworld) string { _, err := w.hc[0].Write(wpayload(1, 1500)); return fmt.Sprint(err) },
 			func(w *hworld) string { _, err := w.hc[1].Write(wpayload(2, 1100)); return fmt.Sprint(err) },
 			func(w *hworld) string { return w.plain(0) + " / " + w.plain(1) }},
+		{"a genuine and a forged pair-verify naming the same controller on two new connections", "C03 C01", nil,
+			func(w *hworld) string { return w.verify("10.0.0.31:50031", "hv-l", hidL.ID, hidL) },
+			func(w *hworld) string { return w.verify("10.0.0.66:50066", "hv-x", hidL.ID, hidX) }, state},
+		{"a pair-verify on a new connection while a verified connection writes", "C03 C09", nil,
+			func(w *hworld) string { return w.verify("10.0.0.31:50031", "hv-l", hidL.ID, hidL) },
+			func(w *hworld) string { return w.do(1, "PUT", "/characteristics", w.put("brightness", "value", "42")) }, state},
+		{"a malformed request on one connection, a read on the other", "C13 C09", nil,
+			func(w *hworld) string {
+				return w.do(0, "PUT", "/characteristics", `{"characteristics":[{"aid":"x","iid":[1],"value":{"a":null}},null]}`)
+			},
+			func(w *hworld) string {
+				return w.do(1, "GET", "/characteristics?id="+w.id("brightness")+","+w.id("on"), "")
+			}, state},
 		{"a new, unverified connection asks for the attribute database while a verified one is served", "C01 C03", nil,
 			func(w *hworld) string { return h([]byte(w.do(0, "GET", "/accessories", ""))) },
 			func(w *hworld) string {
-				c := &hconn{remote: "10.0.0.99:59999"}
-				w.conns = append(w.conns, c)
-				w.hc = append(w.hc, hap.NewConnection(c, w.ctx))
-				r := w.do(len(w.conns)-1, "GET", "/accessories", "") + " | " + w.do(len(w.conns)-1, "GET", "/characteristics?id="+w.id("on"), "")
-				return r
+				c := w.accept("10.0.0.99:59999")
+				return w.do(c, "GET", "/accessories", "") + " | " + w.do(c, "GET", "/characteristics?id="+w.id("on"), "")
 			}, state},
 	}
 }
